@@ -44,7 +44,11 @@ var verifC18Out = "OUT"
 // VerifC18Validate: `acv validate P D [OUT]` against every prior state of OUT.
 func VerifC18Validate() {
 	toFile := v.Choice("toFile", 2) == 1
-	rl := 1 + v.Choice("reportLen", 3)
+	maxReport, maxPrior := 3, 6
+	if v.Deep() {
+		maxReport, maxPrior = 6, 10 // thorough tier: report texts of 1..6 bytes, prior contents of 0..9 bytes
+	}
+	rl := 1 + v.Choice("reportLen", maxReport)
 	report := v.Bytes("report", rl)
 	libErr := v.Bool("libErr")
 	v.StubOn("validator.Validate")
@@ -61,7 +65,7 @@ func VerifC18Validate() {
 		if out == "OUT" {
 			prior = v.Choice("prior", 3) // 0 absent, 1 present, 2 present and read-only
 			if prior != 0 {
-				pl := v.Choice("priorLen", 6)
+				pl := v.Choice("priorLen", maxPrior)
 				v.FSPut("OUT", v.Bytes("priorContent", pl), prior == 2)
 			}
 		} else {
